@@ -10,6 +10,7 @@ pub mod c07;
 pub mod c09;
 pub mod c10;
 pub mod store;
+pub mod c16;
 pub mod hist;
 pub mod memkv;
 pub mod pq;
